@@ -3,6 +3,11 @@
 package main
 
 import (
+	_ "verifharness/comp/ccall"
 	_ "verifharness/comp/codec"
+	_ "verifharness/comp/conc"
 	_ "verifharness/comp/csync"
+	_ "verifharness/comp/lifo"
+	_ "verifharness/comp/linkedlist"
+	_ "verifharness/comp/seq"
 )
